@@ -107,7 +107,7 @@ class C13(Sim):
         "copy_of_a_copy", "edit_copy_then_process_original", "process_other_between_inputs_and_process", "restart_after_abort",
         "toggle_process_restore_process", "linear_or_function_engine_copied", "batch_then_scalar_same_engine",
         "abort_with_rule_already_triggered", "restart_after_crash", "crash_inside_reload_rules", "history_free_checked",
-        "idempotence_checked", "inplace_container_edit", "replace_term_and_restart", "copy_crashed", "shipped_example_engine", "identity_term_chain", "empty_batch",
+        "idempotence_checked", "inplace_container_edit", "replace_term_and_restart", "copy_crashed", "shipped_example_engine", "identity_term_chain", "empty_batch", "two_engines_fed_from_the_same_arrays",
     ]
 
     def prepare(self) -> None:
@@ -228,8 +228,12 @@ class C13(Sim):
             return {"op": "inputs", "e": e, "rows": [], "setter": rng.choice(["vars", "matrix"])}
         if sp.get("flags", {}).get("identity_chain") and k == 1 and rng.random() < 0.6:
             return {"op": "inputs", "e": e, "rows": [S.draw_row(rng, sp, 0.05)], "setter": "np0d"}
-        return {"op": "inputs", "e": e, "rows": [S.draw_row(rng, sp, rng.choice([0.05, 0.2, 0.4])) for _ in range(k)],
-                "setter": rng.choice(["vars", "vars", "matrix", "np0d", "npfloat", "pyint", "inplace", "inplace"])}
+        op = {"op": "inputs", "e": e, "rows": [S.draw_row(rng, sp, rng.choice([0.05, 0.2, 0.4])) for _ in range(k)],
+              "setter": rng.choice(["vars", "vars", "matrix", "np0d", "npfloat", "pyint", "inplace", "inplace"])}
+        if k > 1 and rng.random() < 0.15:
+            # the caller feeds two engines from the same array objects (legal: a variable keeps a reference to what it is given)
+            op["setter"], op["share"] = "vars", True
+        return op
 
     def _crash_cases(self, rng, sp, vector_ok, tier) -> Iterator[dict]:
         pre = [self._inputs(rng, sp, 0, vector_ok), {"op": "process", "e": 0}]
@@ -287,6 +291,7 @@ class C13(Sim):
             out.digest, out.log = dig.hex(), log
             return out
         live = [Live(e0, s0, copy.deepcopy(sp), copy.deepcopy(sp), [], 0)]
+        sharing: set[int] = set()  # ids of Live objects whose input arrays are (also) another engine's
         for _cls in S.classes_of(sp):
             st.hit("classes." + _cls)
         live[0].cached = EO.snapshot(e0)
@@ -338,6 +343,11 @@ class C13(Sim):
             v = None
             if k in ("inputs", "process", "abort", "edit", "toggle"):
                 if k == "inputs":
+                    if op.get("setter") == "inplace" and id(L) in sharing:
+                        # this engine's input arrays are also another engine's: a caller who refilled them in place would change
+                        # both engines himself; he hands over new arrays instead
+                        op = dict(op, setter="vars")
+                    sharing.discard(id(L))
                     pending_inputs[idx] = True
                     kk = len(op["rows"])
                     if last_rows_k.get(idx, 1) > 1 and kk == 1:
@@ -563,6 +573,19 @@ class C13(Sim):
                                  diff=EO.snap_diff(other.cached, now), edit=str(op.get("edit", op.get("path", "")))[:160])
                         break
                 L.cached = EO.snapshot(L.engine)
+                if k == "inputs" and op.get("share") and len(live) > 1:
+                    O = live[(idx + 1) % len(live)]
+                    if (len(O.engine.input_variables) == len(L.engine.input_variables)
+                            and not any(iv.lock_range for iv in list(O.engine.input_variables) + list(L.engine.input_variables))
+                            and all(isinstance(iv.value, np.ndarray) for iv in L.engine.input_variables)):
+                        plain = {kk: vv for kk, vv in op.items() if kk != "share"}
+                        for ov_, iv_ in zip(O.engine.input_variables, L.engine.input_variables):
+                            ov_.value = iv_.value  # the very same array objects
+                        apply_single(O.shadow, plain)
+                        O.log.append(plain)
+                        O.cached = EO.snapshot(O.engine)
+                        sharing.update((id(L), id(O)))
+                        st.hit("probes.two_engines_fed_from_the_same_arrays")
             if v is not None:
                 out.violation = v
                 break
